@@ -97,16 +97,16 @@ def c03_case(draw):
     order = draw(st.sampled_from([2, 4]))
     grid = None
     if api == 'jacobian':
-        base = draw(mv.mv_cases(kinds=KINDS))
+        base = draw(mv.mv_cases(kinds=KINDS, int_x=True))
         forms = ['list', 'array', 'array'] + (['column'] if base['prog']['container'] != 'mat' else [])
         xform = draw(st.sampled_from(forms))
     else:
         xform = draw(st.sampled_from(['list', 'array', 'grid', 'gridF']))
         if xform in ('grid', 'gridF'):
             grid = list(draw(st.sampled_from(GRIDS)))
-            base = draw(mv.mv_cases(n=grid[0] * grid[1], containers=('0d',), kinds=KINDS))
+            base = draw(mv.mv_cases(n=grid[0] * grid[1], containers=('0d',), kinds=KINDS, int_x=True))
         else:
-            base = draw(mv.mv_cases(containers=('0d',), kinds=KINDS))
+            base = draw(mv.mv_cases(containers=('0d',), kinds=KINDS, int_x=True))
     case = dict(base, api=api, method=method, order=order, xform=xform, grid=grid,
                 step=draw(mv.step_specs(method, kinds=mv.GEO_KINDS_CSTEP if method in ('complex', 'multicomplex')
                                        else mv.GEO_KINDS)), full_output=True)
@@ -164,6 +164,8 @@ def builder(nd, cls, f, case, full_output, **extra):
 
 def shape_x(case, x):
     xf = case['xform']
+    if case.get('x_int') and xf in ('list', 'array'):      # Python ints / an int64 array
+        return [int(v) for v in x] if xf == 'list' else np.array(x, dtype=np.int64)
     if xf == 'list':
         return [float(v) for v in x]
     if xf == 'array':
